@@ -413,8 +413,21 @@ class _CRTFRegionParser:
         Parse the meta_str to a dictionary and store in the ``meta``
         attribute.
         """
+        label = None
+        if self.meta_str:
+            # a quoted label can contain commas, brackets and the other
+            # kind of quote, which the generic key=value pattern cannot
+            # handle
+            match = re.search(r'label\s*=\s*([\'"])(.*?)\1\s*(?:,|$)',
+                              self.meta_str)
+            if match:
+                label = match.group(2)
+                self.meta_str = (self.meta_str[:match.start()]
+                                 + self.meta_str[match.end():])
         if self.meta_str:
             self.meta_str = regex_meta.findall(self.meta_str + ',')
+        if label is not None:
+            self.meta['label'] = label
         if self.meta_str:
             for par in self.meta_str:
                 if par[0] != '':
